@@ -166,6 +166,10 @@ func (l *lgen) rawRing(ox, oy, side int) geom.LineString {
 		}
 	}
 	pts = append(pts, pts[0])
+	if l.r.Intn(8) == 0 { // a vertex written twice (the start vertex included): same point set, same validity
+		k := l.r.Intn(len(pts))
+		pts = append(pts[:k+1], pts[k:]...)
+	}
 	return geom.NewLineString(seqOf(pts))
 }
 
